@@ -28,6 +28,13 @@ fn int_json(n: i128) -> Value {
     json!({"neg": neg && n != 0, "d": digits})
 }
 
+/// decimal rendering of q/4
+pub fn quarter_str(q: i64) -> String {
+    let a = q.abs();
+    let frac = ["", ".25", ".5", ".75"][(a % 4) as usize];
+    format!("{}{}{}", if q < 0 { "-" } else { "" }, a / 4, frac)
+}
+
 fn sat(n: i64) -> i64 {
     n.clamp(-1_000_000, 1_000_000)
 }
@@ -185,7 +192,7 @@ impl Gen {
     /// Modelled commands outside the original table: bit operations, GETEX, and the commands
     /// whose result is a random choice (SPOP, RANDOMKEY: the model lists every choice).
     pub fn extra_command(&mut self) -> (Value, Argv) {
-        let which = self.rng.gen_range(0..12);
+        let which = self.rng.gen_range(0..14);
         // mostly at a key that usually has the fitting type
         let k = if self.rng.gen_bool(0.6) { (if (8..=10).contains(&which) { "st" } else { ["k1", "k2", "k3"][self.rng.gen_range(0..3)] }).to_string() } else { self.key() };
         let kb = k.clone().into_bytes();
@@ -211,9 +218,15 @@ impl Gen {
                 if n >= 0 { argv.push(b(&n.to_string())); }
                 (json!({"op": "SPOP", "k": k, "n": n}), argv)
             }
-            _ => {
+            11 => {
                 let kbs: Vec<Value> = self.keys.iter().map(|x| json!([x, x.as_bytes()])).collect();
                 (json!({"op": "RANDOMKEY", "kb": kbs}), vec![b("RANDOMKEY")])
+            }
+            _ => {
+                // INCRBYFLOAT by a multiple of 1/4 (exact in binary), mostly at the counter key
+                let k = if self.rng.gen_bool(0.7) { "cnt".to_string() } else { k };
+                let q = [1i64, 2, 3, 4, -4, -1, 10, 0, 400, -13, 6][self.rng.gen_range(0..11)];
+                (json!({"op": "INCRBYFLOAT", "k": k, "q": q}), vec![b("INCRBYFLOAT"), k.clone().into_bytes(), b(&quarter_str(q))])
             }
         }
     }
@@ -399,6 +412,7 @@ pub fn render(c: &Value) -> Argv {
         "SETBIT" => argv = vec![b("SETBIT"), k(), b(&num("off").to_string()), b(&num("bit").to_string())],
         "GETBIT" => argv = vec![b("GETBIT"), k(), b(&num("off").to_string())],
         "GETEX" => { argv = vec![b("GETEX"), k()]; match c["mode"].as_str().unwrap_or("none") { "persist" => argv.push(b("PERSIST")), "rel" => { argv.push(b("PX")); argv.push(b(&num("ms").to_string())); } _ => {} } }
+        "INCRBYFLOAT" => argv = vec![b("INCRBYFLOAT"), k(), b(&quarter_str(num("q")))],
         "SPOP" => { argv = vec![b("SPOP"), k()]; if num("n") >= 0 { argv.push(b(&num("n").to_string())); } }
         "RANDOMKEY" => argv = vec![b("RANDOMKEY")],
         "INCRBY" => argv = vec![b("INCRBY"), k(), b(&int_of(&c["d"]))],
